@@ -163,7 +163,9 @@ def _apply(p, op):
             new = h.replace(b"FAB ((8, (64 11 52 0 1 12 0 1023)),(8, (8 7 6 5 4 3 2 1)))",
                             [b"FAB ((8, (64 11 52 0 1 12 0 1023)),(8, (1 2 3 4 5 6 7 8)))",
                              b"FAB  ((8, (64 11 52 0 1 12 0 1023)),(8, (8 7 6 5 4 3 2 1)))",
-                             b"FAB ((4, (32 8 23 0 1 9 0 127)),(4, (4 3 2 1)))"][amt % 3])
+                             b"FAB ((4, (32 8 23 0 1 9 0 127)),(4, (4 3 2 1)))",
+                             # a byte that is not ASCII inside the real-number descriptor (same length)
+                             b"FAB ((8, (64 11 52 0 1 12 0 1023)),(8, (8 7 6 5 4 3 2 \xe9)))"][{1: 0, 3: 1, 8: 2, 64: 3}.get(amt, 3)])
         else:
             m = re.search(rb"\(\((-?[\d,-]+)\) \((-?[\d,-]+)\) \(", h)
             lo = [int(x) for x in m.group(1).split(b",")]
